@@ -72,6 +72,12 @@ pub struct Snapshot {
     pub container_ok: bool,
     /// zoneinfo with a symlink alias: the universe name the link points at.
     pub alias_target: Option<usize>,
+    /// Concatenated back-end: index names that are not universe names (a
+    /// torn index can contain e.g. an all-zero entry, whose name is "").
+    pub extra_names: Vec<String>,
+    /// Concatenated back-end: the file (inode) the `tzdata` path denotes
+    /// (0: none).
+    pub image_ino: u64,
 }
 
 pub struct Disk {
@@ -395,6 +401,8 @@ impl Disk {
     pub fn snapshot(&mut self, seq: u32) {
         let mut views = Vec::with_capacity(self.universe.len());
         let mut container_ok = true;
+        let mut extra_names: Vec<String> = vec![];
+        let mut image_ino = 0u64;
         match self.backend {
             Backend::ZoneInfo => {
                 for i in 0..self.universe.len() {
@@ -440,9 +448,17 @@ impl Disk {
                 if let Some(ref img) = img {
                     let whole = self.intern(img.clone());
                     self.note_inode(ino, seq, whole);
+                    image_ino = ino;
                 }
                 let parsed = img.as_deref().and_then(zonegen::android_parse);
                 container_ok = parsed.is_some();
+                if let Some(ref entries) = parsed {
+                    for e in entries {
+                        if !self.universe.contains(&e.0) && !extra_names.contains(&e.0) {
+                            extra_names.push(e.0.clone());
+                        }
+                    }
+                }
                 for i in 0..self.universe.len() {
                     let v = match parsed {
                         None => View::Absent,
@@ -477,11 +493,13 @@ impl Disk {
             if last.views == views
                 && last.container_ok == container_ok
                 && last.alias_target == alias_target
+                && last.extra_names == extra_names
+                && last.image_ino == image_ino
             {
                 return;
             }
         }
-        self.snaps.push(Snapshot { begin: seq, views, container_ok, alias_target });
+        self.snaps.push(Snapshot { begin: seq, views, container_ok, alias_target, extra_names, image_ino });
     }
 
     fn note_inode(&mut self, ino: u64, seq: u32, content: ContentId) {
